@@ -221,8 +221,9 @@ class Module:
 
 
 class Program:
-    def __init__(self, repo: str):
+    def __init__(self, repo: str, overrides: Optional[Dict[str, str]] = None):
         self.repo = os.path.abspath(repo)
+        self.overrides = overrides or {}
         self.modules: Dict[str, Module] = {}
         self.excluded: List[Tuple[str, str]] = []
         self.functions: Dict[str, FunctionInfo] = {}
@@ -251,7 +252,7 @@ class Program:
                     self.excluded.append((rel, "plotting/animation helper: no property anchors here"))
                     continue
                 try:
-                    src = open(path, encoding="utf-8").read()
+                    src = self.overrides[rel] if rel in self.overrides else open(path, encoding="utf-8").read()
                     with warnings.catch_warnings():
                         warnings.simplefilter('ignore')
                         tree = ast.parse(src, filename=path)
